@@ -86,7 +86,10 @@ func unrelatedMaps(g2 *Gen, k int) {
 	locs := [][]byte{locF, locG, []byte("bb"), locA, locB}
 	for i := 0; i < k; i++ {
 		lo := locs[r.Intn(len(locs))]
-		switch r.Intn(6) {
+		switch r.Intn(7) {
+		case 6:
+			// the top of the address space of a map no name selects: its last range point carries a location
+			g2.Subnet(lo, []string{"::/0", "ff00::/8", "ffff:ffff::/32"}[r.Intn(3)], []string{"m9", "e9"}[r.Intn(2)])
 		case 0:
 			g2.SubnetDefault(lo, []string{"192.0.2.0/24", "198.51.100.0/24", "192.0.2.0/25", "203.0.113.0/28", "2001:db8:ffff::/48"}[r.Intn(5)])
 		case 1:
